@@ -137,19 +137,21 @@ def run(chk, ctx):
         env = e['env']
         check_envelope(chk, 'C04.H', 'content header', env, 2)
         parts = env['payload']
-        fixed = parts[0] if parts else None
+        ff_ = L.fixed_fields(parts, [2, 2, 8])
         okf = False
-        if isinstance(fixed, Sym) and fixed.op == 'pack':
-            f = T.fmt(fixed.args[0])
-            okf = [(o, x[1], x[2], x[3]) for o, x in f.offsets()] == \
-                [(0, 2, False, 'int'), (2, 1, None, 'pad'),
-                 (3, 1, None, 'pad'), (4, 8, False, 'int')] and \
-                f.order == 'big' and fixed.args[1][0] == 60 and \
-                fixed.args[1][1] is Sym('field', 'body_size')
-        chk.ob('C04.H', 'fixed part', okf, 'written %s' %
-               T.show(fixed)[:100],
-               detail={'expected': 'u16 60, u16 0, u64 body size'})
+        fixed = None
         rest = parts[1:]
+        if ff_ is not None:
+            fixed, rest = ff_
+            okf = fixed[0] == 60 and fixed[1] == 0 and \
+                isinstance(fixed[2], tuple) and fixed[2][0] is False and \
+                fixed[2][1] == 'big' and \
+                fixed[2][2] is Sym('field', 'body_size')
+        chk.ob('C04.H', 'fixed part', okf, 'written %s' % (
+            T.show(tuple(x if not isinstance(x, tuple) else x[2]
+                         for x in fixed))[:100] if fixed is not None
+            else T.show(tuple(parts[:2]))[:100]),
+            detail={'expected': 'u16 60, u16 0, u64 body size'})
         fl = rest[0] if rest else None
         props = spec.properties()
         okw = isinstance(fl, Sym) and fl.op == 'pack' and \
@@ -243,16 +245,13 @@ def run(chk, ctx):
                    {k: Sym('field', k) for k in
                     ('major_version', 'minor_version', 'revision')})
     okv = False
-    if isinstance(v, Sym) and v.op == 'concat' and len(v.args) == 2 and \
-            v.args[0] == b'AMQP' and isinstance(v.args[1], Sym) and \
-            v.args[1].op == 'pack':
-        f = T.fmt(v.args[1].args[0])
-        a = v.args[1].args[1]
-        okv = all(x[1] == 1 and x[2] is False for x in f.values) and \
-            len(f.values) == 4 and f.size == 4 and a[0] == 0 and \
-            a[1] is Sym('field', 'major_version') and \
-            a[2] is Sym('field', 'minor_version') and \
-            a[3] is Sym('field', 'revision')
+    items = L.flat(v) if v is not None else []
+    if len(items) == 4 and items[0] == ('const', b'AMQP\x00'):
+        okv = all(it[0] == 'fld' and it[1] == 1 and it[2] is False and
+                  it[4] == 'int' and it[5] is Sym('field', nm)
+                  for it, nm in zip(items[1:], ('major_version',
+                                                'minor_version',
+                                                'revision')))
     chk.ob('C04.V', 'protocol header', okv, 'marshal -> %s' %
            T.show(v)[:120],
            detail={'expected': "b'AMQP' ++ u8 0, major, minor, revision"})
